@@ -123,18 +123,47 @@ def check_manager_purge(prop: str, res: Result, repo: Repo):
 
 
 def check_hexital_purge(prop: str, res: Result, repo: Repo):
+    """R-SELECT: Hexital.purge / calculate / calculate_index, evaluated (convsem) on a strategy holding indicators named 'A', 'AB' and
+    'B': with no name every indicator is operated on, with a name exactly the indicator of that name (not 'AB' for 'A'), with an
+    unknown name none"""
+    from . import convsem as cs
+
     rule = "R-SELECT"
     for nm in ("purge", "calculate", "calculate_index"):
         m = repo.method("hexital.core.hexital", "Hexital", nm)
-        tests = [n for n in ast.walk(m.node) if isinstance(n, ast.If)]
-        for t in tests:
-            txt = ast.unparse(t.test)
-            cmps = [n for n in ast.walk(t.test) if isinstance(n, ast.Compare) and "name" in ast.unparse(n) and not (isinstance(n.ops[0], ast.Is))]
-            ok = cmps and all(len(c.ops) == 1 and isinstance(c.ops[0], ast.Eq) for c in cmps)
-            if ok:
-                res.ok(rule, {"site": f"{m.where} {norm_construct(t.test)}", "selection": "name is None or indicator_name == name"}, nontrivial=f"Hexital.{nm}")
-            else:
-                res.fail(rule, finding(prop, rule, m, t.test, f"Hexital.{nm} selects the indicators to operate on by something other than name equality"))
+        bad = None
+        for asked in (None, "A", "AB", "B", "ZZ", ""):
+            it = cs.Interp(repo, "hexital.core.hexital", "Hexital")
+            hit = []
+            inds = {}
+            for n_ in ("A", "AB", "B"):
+                o = cs.ObjV(f"indicator {n_}", {"name": n_}, "Indicator")
+                for meth in ("purge", "calculate", "calculate_index", "recalculate"):
+                    o.attrs[meth] = (lambda a, k, n__=n_, mm=meth: hit.append(n__))
+                inds[n_] = o
+            selfo = cs.ObjV("self", {"_indicators": inds, "_candles": {}}, "Hexital")
+            fn = it.method(nm)
+            params = [p_.arg for p_ in fn.args.args[1:]]
+            kwargs = {"name": asked} if "name" in params else {}
+            if "index" in params:
+                kwargs["index"] = -1
+            try:
+                it.call_function(fn, [], kwargs, bound_first=selfo)
+            except cs.Undecided as ex:
+                res.errors.append(f"{m.where} {rule} Hexital.{nm}: cannot evaluate the selection for name={asked!r} ({ex}); the rule cannot decide it")
+                bad = "undecided"
+                break
+            except cs.Raised as ex:
+                bad = f"raises {ex.what} for name={asked!r}"
+                break
+            want = ["A", "AB", "B"] if asked is None else [asked] if asked in inds else []
+            if sorted(hit) != sorted(want):
+                bad = f"with name={asked!r} operates on {sorted(hit)}; expected {want} (indicators registered: 'A', 'AB', 'B')"
+                break
+        if bad is None:
+            res.ok(rule, {"site": m.where, "selection": "all when no name is given, exactly the named indicator otherwise (6 names evaluated)"}, nontrivial=f"Hexital.{nm}")
+        elif bad != "undecided":
+            res.fail(rule, finding(prop, rule, m, m.node, f"Hexital.{nm} {bad}: an operation aimed at one indicator touches others (or misses it)", construct=f"Hexital.{nm}: selection"))
     rm = repo.method("hexital.core.hexital", "Hexital", "remove_indicator")
     seq = [call_target(c) for c in calls_in(rm.node)]
     if seq[:2] == ["self.purge", "self._indicators.pop"]:
@@ -204,23 +233,48 @@ def check_raw_copies(prop: str, res: Result, repo: Repo, want=("method", "append
         if m is None:
             res.fail(rule, finding(prop, rule, ci, ci.node, "Candle.raw_copy (fresh copy with raw values, no tag, no readings) is missing", construct="Candle.raw_copy"))
         else:
-            body = [st for st in m.node.body if not (isinstance(st, ast.Expr) and isinstance(st.value, ast.Constant))]
-            ok = len(body) >= 5 and isinstance(body[0], ast.Assign) and isinstance(body[0].value, ast.Call) and call_name(body[0].value) == "deepcopy" and ast.unparse(body[0].value.args[0]) == "self"
-            if ok:
-                v = ast.unparse(body[0].targets[0])
-                seq = []
-                for st in body[1:]:
-                    if isinstance(st, ast.Expr) and isinstance(st.value, ast.Call):
-                        seq.append(call_target(st.value))
-                    elif isinstance(st, ast.Assign):
-                        seq.append(ast.unparse(st.targets[0]) + "=" + ast.unparse(st.value))
-                    elif isinstance(st, ast.Return):
-                        seq.append("return " + ast.unparse(st.value))
-                ok = seq == [f"{v}.recover_clean_values", f"{v}.clean_values={{}}", f"{v}.reset_candle", f"return {v}"]
-            if ok:
-                res.ok(rule, {"site": m.where, "raw_copy": "deepcopy -> recover_clean_values -> clean_values = {} -> reset_candle (tag and readings cleared)"}, nontrivial="raw_copy")
-            else:
-                res.fail(rule, finding(prop, rule, m, m.node, "Candle.raw_copy must deep-copy the candle, restore its raw values and clear saved values, tag and readings", construct="Candle.raw_copy body"))
+            from . import convsem as cs
+
+            FIELDS = ("open", "high", "low", "close", "volume", "timestamp")
+            bad = None
+            for label, converted in (("a converted, tagged candle with readings", True), ("an unconverted candle with readings", False)):
+                cur = {f: cs.Sym(f"current {f}", "float") for f in FIELDS}
+                raw = {f: cs.Sym(f"raw {f}", "float") for f in FIELDS}
+                readings, helper = {"EMA_10": cs.Sym("a reading", "float")}, {"EMA_10_h": cs.Sym("a helper reading", "float")}
+                saved = dict(raw)
+                saved.update({"clean_values": {}, "indicators": {"stale": cs.Sym("a stale reading", "float")}, "sub_indicators": {}})
+                attrs = dict(cur)
+                attrs.update({"clean_values": saved if converted else {}, "indicators": readings, "sub_indicators": helper, "_tag": "Heikin-Ashi" if converted else None})
+                selfo = cs.ObjV("the candle", attrs, "Candle")
+                before = {k: (dict(v) if isinstance(v, dict) else v) for k, v in attrs.items()}
+                it = cs.Interp(repo, "hexital.core.candle", "Candle")
+                try:
+                    got = it.call_function(it.method("raw_copy"), [], {}, bound_first=selfo)
+                except cs.Undecided as ex:
+                    res.errors.append(f"{m.where} {rule} Candle.raw_copy: cannot evaluate the copy of {label} ({ex}); the rule cannot decide it")
+                    bad = "undecided"
+                    break
+                except cs.Raised as ex:
+                    bad = f"raises {ex.what} on {label}"
+                    break
+                want_f = raw if converted else cur
+                if not isinstance(got, cs.ObjV) or got is selfo:
+                    bad = f"returns {got!r} for {label}, not a new candle object"
+                elif any(got.attrs.get(f) is not want_f[f] for f in FIELDS):
+                    f_ = next(f for f in FIELDS if got.attrs.get(f) is not want_f[f])
+                    bad = f"the copy of {label} has {f_} = {got.attrs.get(f_)!r}, expected the {'raw (pre-conversion)' if converted else 'own'} value {want_f[f_]!r}"
+                elif got.attrs.get("clean_values") != {} or got.attrs.get("indicators") != {} or got.attrs.get("sub_indicators") != {} or got.attrs.get("_tag") is not None:
+                    bad = f"the copy of {label} still carries saved values / readings / a conversion tag ({ {k: got.attrs.get(k) for k in ('clean_values', 'indicators', 'sub_indicators', '_tag')}!r})"
+                elif any(got.attrs.get(k) is attrs[k] for k in ("clean_values", "indicators", "sub_indicators")):
+                    bad = f"the copy of {label} shares a dict with the original"
+                elif {k: (dict(v) if isinstance(v, dict) else v) for k, v in selfo.attrs.items()} != before:
+                    bad = f"raw_copy changes the candle it copies ({label})"
+                if bad:
+                    break
+            if bad is None:
+                res.ok(rule, {"site": m.where, "raw_copy": "evaluated on a converted and an unconverted candle: a new object with the raw prices, no saved values, no readings, no tag; the original untouched"}, nontrivial="raw_copy")
+            elif bad != "undecided":
+                res.fail(rule, finding(prop, rule, m, m.node, f"Candle.raw_copy: {bad}; a timeframe manager collapses before it converts, so its copies must be raw, untagged and without readings", construct="Candle.raw_copy body"))
     if "append" in want:
         from .props.c19 import eval_append
 
